@@ -189,7 +189,15 @@ impl Actor for PidWatch {
 async fn run_hist(rest: &str) -> String {
     let sid = SCN.fetch_add(1, Ordering::SeqCst);
     let pid = std::process::id();
-    let nm = |k: u64| format!("c10-{pid}-{sid}-{k}");
+    // name pool: ordinary names are private to the scenario; 90.. are special shapes (shared by the
+    // sequential scenarios of this process: every scenario tidies up, so they are free at its start)
+    let nm = |k: u64| match k {
+        90 => String::new(),                                   // the EMPTY name
+        91 => "x".to_string(),                                 // one character
+        92 => format!("long-{pid}-{sid}-{}", "n".repeat(5000)), // very long
+        93 => format!("名前-é-ß-{pid}-{sid}"),                   // non-ASCII
+        _ => format!("c10-{pid}-{sid}-{k}"),
+    };
     let (sup, _sh) = Actor::spawn(None, Quiet, ()).await.expect("sup");
     let pidlog: Arc<Mutex<Vec<(bool, ActorId)>>> = Arc::new(Mutex::new(Vec::new()));
     let wrong_typed: Arc<Mutex<Vec<String>>> = Arc::new(Mutex::new(Vec::new()));
